@@ -385,7 +385,161 @@ class _InlineReturn(ast.NodeTransformer):
                     i += 1
 
 
-def normal_form(tree):
+class _PlainAssign(ast.NodeTransformer):
+    """x: T = v  ->  x = v   for plain names inside functions (annotations of locals are never evaluated);
+    `if (x := E) ...:` -> `x = E; if x ...:` when the named expression is the first thing the test evaluates."""
+
+    def __init__(self):
+        self.depth = 0
+
+    def visit_FunctionDef(self, node):
+        self.depth += 1
+        self.generic_visit(node)
+        self.depth -= 1
+        self._hoist(node)
+        return node
+
+    visit_AsyncFunctionDef = visit_FunctionDef
+
+    def visit_ClassDef(self, node):
+        d, self.depth = self.depth, 0
+        self.generic_visit(node)
+        self.depth = d
+        return node
+
+    def visit_AnnAssign(self, node):
+        self.generic_visit(node)
+        if self.depth and node.value is not None and isinstance(node.target, ast.Name):
+            new = ast.Assign(targets=[node.target], value=node.value)
+            return ast.copy_location(new, node)
+        return node
+
+    @staticmethod
+    def _first(test):
+        if isinstance(test, ast.NamedExpr):
+            return test, None, None
+        if isinstance(test, ast.UnaryOp) and isinstance(test.op, ast.Not) and isinstance(test.operand, ast.NamedExpr):
+            return test.operand, test, 'operand'
+        if isinstance(test, ast.Compare) and isinstance(test.left, ast.NamedExpr):
+            return test.left, test, 'left'
+        return None, None, None
+
+    def _hoist(self, fn):
+        for n in ast.walk(fn):
+            for field in ('body', 'orelse', 'finalbody'):
+                block = getattr(n, field, None)
+                if not (isinstance(block, list) and block and isinstance(block[0], ast.stmt)):
+                    continue
+                i = 0
+                while i < len(block):
+                    st = block[i]
+                    if isinstance(st, ast.If):
+                        w, holder, attr = self._first(st.test)
+                        if w is not None and isinstance(w.target, ast.Name):
+                            assign = ast.copy_location(ast.Assign(targets=[ast.Name(id=w.target.id, ctx=ast.Store())], value=w.value), st)
+                            ref = ast.copy_location(ast.Name(id=w.target.id, ctx=ast.Load()), w)
+                            if holder is None:
+                                st.test = ref
+                            else:
+                                setattr(holder, attr, ref)
+                            block.insert(i, assign)
+                            i += 1
+                    i += 1
+
+
+_IDENT_CACHE = {}
+
+
+def _identifiers_elsewhere(root, rel):
+    """identifier -> number of package files other than ``rel`` that mention it"""
+    import os
+    if root not in _IDENT_CACHE:
+        per_file = {}
+        for dirpath, _, files in os.walk(os.path.join(root, 'parso')):
+            for fn in files:
+                if fn.endswith('.py'):
+                    p = os.path.join(dirpath, fn)
+                    try:
+                        with open(p, encoding='utf-8') as f:
+                            per_file[os.path.relpath(p, root)] = set(re.findall(r'[A-Za-z_]\w*', f.read()))
+                    except OSError:
+                        pass
+        _IDENT_CACHE[root] = per_file
+    out = set()
+    for r, names in _IDENT_CACHE[root].items():
+        if r != rel:
+            out |= names
+    return out
+
+
+def _inline_delegators(tree, elsewhere=frozenset()):
+    """def f(a, b): return g(a, b)  +  def g(a, b): BODY   ->   def f(a, b): BODY     when g lives next to f, has no
+    decorators and is used nowhere else in the module (the wrapper / implementation split of a function).  Rules
+    anchor at API-level function names; this keeps them looking at the code that does the work."""
+    refs = {}
+    for n in ast.walk(tree):
+        if isinstance(n, ast.Name):
+            refs[n.id] = refs.get(n.id, 0) + 1
+        elif isinstance(n, ast.Attribute):
+            refs[n.attr] = refs.get(n.attr, 0) + 1
+
+    def process(body, in_class):
+        defs = {st.name: st for st in body if isinstance(st, (ast.FunctionDef, ast.AsyncFunctionDef))}
+        changed = True
+        while changed:
+            changed = False
+            for f in list(defs.values()):
+                stmts = f.body
+                doc = []
+                if stmts and isinstance(stmts[0], ast.Expr) and isinstance(stmts[0].value, ast.Constant) \
+                        and isinstance(stmts[0].value.value, str):
+                    doc, stmts = stmts[:1], stmts[1:]
+                if len(stmts) != 1 or not isinstance(stmts[0], ast.Return) or not isinstance(stmts[0].value, ast.Call):
+                    continue
+                call = stmts[0].value
+                fparams = [x.arg for x in f.args.posonlyargs + f.args.args]
+                if in_class:
+                    if not (fparams and isinstance(call.func, ast.Attribute) and isinstance(call.func.value, ast.Name)
+                            and call.func.value.id == fparams[0]):
+                        continue
+                    gname = call.func.attr
+                    passed = fparams[1:]
+                else:
+                    if not isinstance(call.func, ast.Name):
+                        continue
+                    gname = call.func.id
+                    passed = fparams
+                g = defs.get(gname)
+                if g is None or g is f or g.decorator_list or refs.get(gname, 0) != 1 or gname in elsewhere:
+                    continue
+                if not all(isinstance(a, ast.Name) for a in call.args) or [a.id for a in call.args] != passed:
+                    continue
+                kw = {k.arg: k.value for k in call.keywords}
+                if any(k is None or not isinstance(v, ast.Name) or v.id != k for k, v in kw.items()):
+                    continue
+                if sorted(kw) != sorted(x.arg for x in f.args.kwonlyargs):
+                    continue
+                gparams = [x.arg for x in g.args.posonlyargs + g.args.args]
+                if gparams != fparams or [x.arg for x in g.args.kwonlyargs] != [x.arg for x in f.args.kwonlyargs] \
+                        or g.args.vararg or g.args.kwarg or f.args.vararg or f.args.kwarg:
+                    continue
+                gbody = g.body
+                if gbody and isinstance(gbody[0], ast.Expr) and isinstance(gbody[0].value, ast.Constant) \
+                        and isinstance(gbody[0].value.value, str) and doc:
+                    gbody = gbody[1:]
+                f.body = doc + gbody
+                body.remove(g)
+                del defs[gname]
+                changed = True
+        for st in body:
+            if isinstance(st, ast.ClassDef):
+                process(st.body, True)
+    process(tree.body, False)
+
+
+def normal_form(tree, root=None, rel=None):
+    _inline_delegators(tree, _identifiers_elsewhere(root, rel) if root and rel else frozenset())
+    _PlainAssign().visit(tree)
     _NormalForm().visit(tree)
     _InlineReturn().visit(tree)
     ast.fix_missing_locations(tree)
